@@ -60,6 +60,10 @@ class Rational(primitives.Expression):
         return self.Numerator == other.Numerator and \
                self.Denominator == other.Denominator
 
+    def __hash__(self):
+        # Defining __eq__ without __hash__ would make instances unhashable.
+        return hash((type(self).__name__, self.Numerator, self.Denominator))
+
     def __add__(self, other):
         if not isinstance(other, Rational):
             newother = Rational(other)
